@@ -345,7 +345,7 @@ def build(ctx):
             npairs = [(n_, n_) for n_ in U] + mixed
             un = ctx.lower("c12n", cpp([], [n_ if n_ == b_ else "%s_%s" % (n_, b_) for (n_, b_) in npairs]), std=std, mode=mode, incs=[inc])
             for arm in range(2):     # the cursor walk (arm 2 of the harness) over 255 entries exhausts the 12 GB memory cap: left out, stated
-                hs.append(P.Harness("nested_uint8_many_arm%d_%s_cxx%s" % (arm, mode, std), nested_many_harness(un), [un], unwind=260, backends=["minisat", "kissat"], cap=ctx.q(600, 1200),
+                hs.append(P.Harness("nested_uint8_many_arm%d_%s_cxx%s" % (arm, mode, std), nested_many_harness(un), [un], unwind=260, backends=(["kissat", "minisat"] if arm == 0 else ["minisat", "kissat"]), cap=ctx.q(600, 1200),   # measured: minisat does not decide arm 0 of the checked build in 600 s, kissat needs 95 s
                                     defines=["VERIF_WHICH=%d" % arm], meta={"big_unwind": 300},
                                     desc="nested group with uint8 numInGroup: arm %d of {0 size/size_bytes, 1 forward iteration} for EVERY entry count 0..255 (minimal entries)" % arm,
                                     bounds={"numInGroup": "0..255 (symbolic)", "entries": "wire blockLength 0, empty <data> (1 byte each)", "std": "c++" + std, "build": mode}))
